@@ -1,5 +1,7 @@
 """C12 — TFM-PVALUE p-value ranges are consistent with the exact score distribution."""
 
+from translate import tfm_const
+
 
 def _fields(line):
     return dict(t.split("=", 1) for t in line.split(" => ")[0].split(" ")[1:] if "=" in t)
@@ -19,11 +21,24 @@ def histogram(line):
             "query:" + f.get("qk", "?"), "steps=" + f.get("steps", "?")]
 
 
+def _e2e_stat_obligations():
+    # the statistics-side composition theorems of coq/e2e (E2EStat.v: counts -> log-odds -> both p-value methods on one
+    # exact tail; they use C12's final-bounds theorem) count as obligations of this property in the thorough tier
+    # (requested by the e2e builder, round 3; see props/e2e.py STAT_EXTRA)
+    from props import e2e
+    return e2e.obligations_stat()
+
+
 SPEC = dict(
     id="C12",
     group="tfm",
     props_file="C12.v",
     module="LMTfm.C12",
+    translate=tfm_const.translate,
+    more_props=[("C12Ext.v", "LMTfm.C12Ext"), ("C12Gen.v", "LMTfm.C12Gen")],
+    extra_obligations={"thorough": _e2e_stat_obligations},
+    extra_obligations_name="coq/e2e/E2EStat.v: composition of C09, C11, C12/C13, C10, C14 and the scanning pipeline of E2E.v",
+    extra_obligations_cmd="make -C coq/e2e (and imported groups) + Print Assumptions audit of LME2E.E2EStat",
     harness_bin="tfm",
     harness_args=["c12"],
     driver_args=["c12"],
